@@ -542,7 +542,8 @@ void gp_str_trim(
         char codepoint[8] = "";
         size_t i = length - 1;
         size_t size;
-        while ((size = gp_utf8_codepoint_length(*str, i)) == 0 && --i != 0);
+        while ((size = gp_utf8_codepoint_length(*str, i)) == 0 && i != 0)
+            --i;
         memcpy(codepoint, *str + i, size);
         if (codepoint[0] == '\0' || strstr(char_set, codepoint) == NULL)
             break;
